@@ -265,3 +265,37 @@ where
         Ok(list.exists(id, None, Op::Any)?)
     }
 }
+
+/// Verification hooks (feature `verif-hooks`, off by default).
+#[cfg(feature = "verif-hooks")]
+impl<CS> ReadState<CS>
+where
+    CS: CipherSuite,
+{
+    /// Takes an atomic snapshot of the channel list that readers
+    /// currently consult.
+    ///
+    /// The list is located and locked exactly as
+    /// [`AfcState::exists`] does. `f` is invoked, while the lock
+    /// is held, with the index, ID, direction, and label of each
+    /// channel. Returns the address of the list (identifying the
+    /// side) and its generation.
+    pub fn verif_snapshot(
+        &self,
+        mut f: impl FnMut(usize, LocalChannelId, crate::ChannelDirection, LabelId),
+    ) -> Result<(usize, u32), crate::Error> {
+        let mutex = self.inner.load_read_list()?;
+        let side = core::ptr::from_ref(mutex) as usize;
+        let list = mutex.lock().assume("poisoned")?;
+        let generation = list.generation.load(Ordering::Relaxed);
+        for (idx, chan) in list.try_iter()?.enumerate() {
+            let direction = if chan.matches(Op::Seal)? {
+                crate::ChannelDirection::Seal
+            } else {
+                crate::ChannelDirection::Open
+            };
+            f(idx, chan.id()?, direction, chan.label_id()?);
+        }
+        Ok((side, generation))
+    }
+}
